@@ -231,7 +231,7 @@ def main(ctx):
     reg = sorted(glob.glob(os.path.join(common.VERIF_DIR, "regress", "C12", "*.json")))
     ctx.pmap(regress_worker, [(p, known) for p in reg])
     n = 70 if quick else 700
-    stop_at = time.time() + (70 if quick else 1500)
+    stop_at = time.time() + (70 if quick else 900)
     ctx.pmap(worker, [(ctx.seed * 100003 + i, n, known, stop_at) for i in range(common.NPROC)])
     ctx.rule = ("case = (generated program with strings/hooks/deletes, 3-4 representation-only option sets, guided inputs); every binary "
                 "is run one byte per call and per-call (code, outputs, hook sequence with arguments and visible outputs) compared exactly "
